@@ -1674,6 +1674,10 @@ class Interp:
             out.tags = out.tags | {"square-of"}
         if isinstance(op, ast.Pow) and r.is_number_const() and r.const == 2 and out.kind in ("arr", "unknown"):
             out.tags = out.tags | {"square-of"}
+        if isinstance(op, ast.Sub) and l.is_number_const() and isinstance(l.const, float) and abs(l.const - 3.141592653589793) < 1e-12:
+            rg_r = [t_ for t_ in r.tags if isinstance(t_, tuple) and t_ and t_[0] == "range"]
+            if rg_r:
+                out.tags = out.tags | {("range", 2 - rg_r[0][2], 2 - rg_r[0][1])}      # pi - angle: the supplement (units of pi / 2)
         if isinstance(op, ast.Mult) and l is r and out.kind in ("arr", "unknown"):
             out.tags = out.tags | {"square-of"}                # x * x
         if isinstance(op, ast.Add) and out.kind in ("arr", "unknown") and (l.tags & {"square-of", "sumsq"}) and (r.tags & {"square-of", "sumsq"}):
